@@ -1,0 +1,47 @@
+//go:build verif
+
+// Contracts for package leanhelixterm, read by /verif/govc (comment-only: no declarations, no effect on any build).
+
+package leanhelixterm
+
+// The protocol logic of one term; what the per-term filter may hand to it. The share of a COMMIT (the sender's signature over
+// the term's random seed, aggregated into the block proof's seed signature) is verified before the COMMIT is handed over.
+//@ iface leanhelixterm.TermMessagesHandler.HandlePrePrepare
+//@   ensures true
+//@ iface leanhelixterm.TermMessagesHandler.HandlePrepare
+//@   ensures true
+//@ iface leanhelixterm.TermMessagesHandler.HandleViewChange
+//@   ensures true
+//@ iface leanhelixterm.TermMessagesHandler.HandleNewView
+//@   ensures true
+//@ iface leanhelixterm.TermMessagesHandler.HandleCommit
+//@   requires [well-formed] cm != nil && cm.content != nil
+//@   requires [O3.the-random-seed-share-of-a-commit-is-verified-before-it-is-counted] VerifiedSeed(caller.keyManager, cm.content.SignedHeader().BlockHeight(), randomseed.RandomSeedToBytes(caller.randomSeed), cm.content.Sender().MemberId(), cm.content.Share())
+//@   ensures true
+
+//@ func (*ConsensusMessagesFilter).HandleConsensusMessage
+//@   props C03 C08 C12
+//@   safety iface
+//@   requires mp.keyManager != nil
+//@   requires [a-parsed-message] istype(message, *interfaces.PreprepareMessage) || istype(message, *interfaces.PrepareMessage) || istype(message, *interfaces.CommitMessage) || istype(message, *interfaces.ViewChangeMessage) || istype(message, *interfaces.NewViewMessage)
+//@   modifies *
+
+// disposing the term disposes its protocol logic (which stops the election timer, C16)
+//@ func (*LeanHelixTerm).Dispose
+//@   props C16 C19
+//@   modifies leanhelixterm.LeanHelixTerm.termInCommittee, ghost:schedStopped
+//@   ensures [O16.disposing-a-participating-term-stops-its-election-timer] old(lht.termInCommittee) != nil ==> schedStopped
+//@   ensures [disposed] lht.termInCommittee == nil
+
+// the commit callback handed to the protocol logic: the proof is generated from exactly the commits handed over, and the
+// host's callback receives that proof's bytes together with the very block that was committed
+//@ dep dynamic:interfaces.OnCommitCallback
+//@   params ctx block blockProof
+//@   ensures true
+//@ func CommitsToProof$1
+//@   props C03 C20
+//@   requires len(commitMessages) >= 1 && block != nil
+//@   requires forall i int :: 0 <= i && i < len(commitMessages) ==> commitMessages[i] != nil && commitMessages[i].content != nil
+//@   modifies *
+//@   assert before call GenerateLeanHelixBlockProof [O3.the-proof-is-generated-from-all-the-commits-handed-over] $commitMessages == commitMessages && $keyManager == keyManager
+//@   assert before call OnCommitCallback [O3.the-host-receives-the-committed-block-with-the-generated-proof] $block == block && $blockProof == proof.Raw()
